@@ -243,6 +243,25 @@ Proof.
   - repeat split; vm_compute; reflexivity.
 Qed.
 
+(* ================= the translated Go code =================
+   Gen/GenInitialState.v is GENERATED on every run from aggsender/statuschecker/initial_state.go: the start-up decision
+   initialStatus.process (with checkAgglayerConsistenceCerts, getLatestAggLayerCert) and the CertificateStatus predicates.
+   `agg_of` / `loc_of` read the model's Agglayer header / local row as the Go structs (the fields the functions read). The translated
+   decision IS the model's `reconcile` - same action, same header, an error in the same cases - for every pair of Agglayer headers and
+   every local row, and for EVERY value of the parameter that stands for a nil-pointer panic: no reachable path of the real function
+   dereferences nil. So the recovery theorems above are theorems about the translated decision. *)
+From Verif Require Base.GoNum Gen.GenInitialState Proofs.GenAgreeInitialState.
+Theorem C13_generated_process_is_reconcile : forall (s p : option hdr) (l : option row)
+  (panic : option (GenInitialState.initialStatusResult N) * GoNum.gerr),
+  match l with Some r => (r_height r + 1 < GoNum.U64)%N | None => True end ->
+  GenInitialState.process N N.eqb (option_map GenAgreeInitialState.agg_of p) (option_map GenAgreeInitialState.agg_of s)
+    (option_map GenAgreeInitialState.loc_of l) panic = GenAgreeInitialState.result_of (reconcile s p l).
+Proof. exact GenAgreeInitialState.process_agree. Qed.
+Theorem C13_generated_consistency_check_is_model : forall (s p : option hdr),
+  GenInitialState.checkAgglayerConsistenceCerts N (option_map GenAgreeInitialState.agg_of p) (option_map GenAgreeInitialState.agg_of s) =
+  if check_agg_consistency s p then GoNum.EOK else GoNum.EFail.
+Proof. exact GenAgreeInitialState.checkAgglayerConsistenceCerts_agree. Qed.
+
 Print Assumptions C13_recovery_refines_nocrash.
 Print Assumptions C13_reconcile_ok_cases.
 Print Assumptions C13_inerror_replacement_crash_refused.
@@ -259,3 +278,5 @@ Print Assumptions C13_metadata_roundtrip.
 Print Assumptions C13_metadata_range.
 Print Assumptions C13_lost_db_inerror_without_prev_ler.
 Print Assumptions C13_inerror_from_zero_nothing_built.
+Print Assumptions C13_generated_process_is_reconcile.
+Print Assumptions C13_generated_consistency_check_is_model.
